@@ -673,6 +673,10 @@ func (c *wsConn) tryReconnect(ctx context.Context) bool {
 			}
 			select {
 			case <-ctx.Done():
+				if conn != nil {
+					// nobody will ever use or close this connection
+					_ = conn.Close()
+				}
 				return
 			default:
 			}
@@ -747,7 +751,6 @@ var maxQueuedFrames = 256
 
 func (c *wsConn) handleWsConn(ctx context.Context) {
 	ctx, cancel := context.WithCancel(ctx)
-	defer cancel()
 
 	c.incoming = make(chan io.Reader)
 	c.readError = make(chan error, 1)
@@ -759,6 +762,10 @@ func (c *wsConn) handleWsConn(ctx context.Context) {
 
 	c.registerCh = make(chan outChanReg)
 	defer close(c.exiting)
+	// cancelled before exiting is signalled (deferred calls run in reverse order),
+	// so that the reconnect goroutine cannot start a new dial once a closer that
+	// waits for exiting has returned
+	defer cancel()
 
 	// ////
 
